@@ -36,24 +36,26 @@ MCInit ==
 
 Oracles == {[mode |-> "canon", k |-> k] : k \in BoundaryChoices}
 
+B(x) == IF x THEN "ok" ELSE "bad"
+
 ProofMsgs(p) ==
     LET s == peer[p] IN
     IF ~HasReq(s)
     THEN \* unsolicited: one representative valid-looking message
          {[last |-> b, lastOk |-> TRUE, empty |-> FALSE, nums |-> <<>>, chain |-> b,
-           match |-> TRUE, root |-> TRUE, pow |-> TRUE, cont |-> TRUE, mmr |-> TRUE, tau |-> "ok", td |-> TRUE]
+           match |-> "ok", root |-> "ok", pow |-> "ok", cont |-> "ok", mmr |-> "ok", tau |-> "ok", td |-> "ok"]
             : b \in {7}}
     ELSE LET answers == {HonestAnswer(world, LastN, s.req, t) : t \in ServerTips} IN
          {[last |-> a.last, lastOk |-> Mined(world, a.last) /\ Rooted(world, a.last),
            empty |-> ~a.onChain, nums |-> a.nums, chain |-> a.last,
-           match |-> TRUE, root |-> TRUE, pow |-> TRUE, cont |-> TRUE, mmr |-> TRUE,
-           tau |-> "world", td |-> TRUE] : a \in answers}
+           match |-> "ok", root |-> "world", pow |-> "world", cont |-> "ok", mmr |-> "ok",
+           tau |-> "world", td |-> "ok"] : a \in answers}
          \cup (IF HonestOnly THEN {} ELSE
                \* one failed check of each kind, on the honest layout
                {[last |-> s.req.last, lastOk |-> TRUE, empty |-> FALSE,
                  nums |-> HonestAnswer(world, LastN, s.req, s.req.last).nums, chain |-> s.req.last,
-                 match |-> f # "match", root |-> f # "root", pow |-> f # "pow", cont |-> f # "cont",
-                 mmr |-> f # "mmr", tau |-> "ok", td |-> TRUE] : f \in {"match", "root", "pow", "cont", "mmr"}})
+                 match |-> B(f # "match"), root |-> B(f # "root"), pow |-> B(f # "pow"), cont |-> B(f # "cont"),
+                 mmr |-> B(f # "mmr"), tau |-> "ok", td |-> "ok"] : f \in {"match", "root", "pow", "cont", "mmr"}})
 
 MCNext ==
     \/ \E p \in MCPeers : Connect(p) \/ Disconnect(p)
